@@ -3,6 +3,7 @@
 use crate::report::Cfg;
 use crate::Case;
 
+pub mod bitvec;
 pub mod trees;
 pub mod vectors;
 
@@ -15,6 +16,7 @@ pub fn cases(cfg: &Cfg) -> Vec<Case> {
         "C05" => vectors::cases_c05(cfg),
         "C06" => vectors::cases_c06(cfg),
         "C07" => vectors::cases_c07(cfg),
+        "C08" => bitvec::cases_c08(cfg),
         other => {
             eprintln!("unknown property {}", other);
             std::process::exit(64);
